@@ -1087,3 +1087,12 @@ def extra_coverage(results):
             'invocations_compared_with_a_direct_call': direct, 'linger_scenarios': len(stalls),
             'max_event_loop_stall_s_in_linger_scenarios': max(stalls or [0]),
             'hang_watchdog_s': WATCHDOG, 'level_note': 'proof about the protocol model + correspondence on observable facts (partial: see assumptions)'}
+
+
+def same_outcome(case, a, b):
+    """amplified run (core.amplified_run): two executions of one scenario count as the same outcome when everything that is not a
+    measurement or a scheduling decision agrees - results, exception classes, termination, resources, process identity.  Wall-clock
+    figures (`wall_s`, `stall_s`), the completion order of concurrent invocations and the load-dependent ticker / freeze observations
+    are judged per execution by `judge`, never compared."""
+    keys = ('out', 'classes', 'hang', 'terminates', 'released', 'resources', 'pid_differs', 'errors')
+    return all(a.get(k) == b.get(k) for k in keys)
